@@ -585,6 +585,34 @@ func CheckC03(run *evid.Run) {
 				run.Violate("C03/tostring", det("order", h.Order), wit(), "ToString order differs from reversed Values() at %s", where)
 			}
 		}
+		// a replica that was opened from a LENGTH-LIMITED load (it holds the newest entries only), is looked at, and
+		// then merges an older state of the same log: its entries grow below unchanged heads, and its view must follow
+		if i < nh && i%6 == 1 && h.Codec != "pb" {
+			for r, l := range x.Logs {
+				vs := l.Values().Slice()
+				if len(vs) < 6 || l.Heads().Len() != 1 || !totalOrder(h.Order, hx.Observe(l).Set) {
+					continue
+				}
+				n := 2 + i%3
+				part, err := x.W.LoadHash(l.Heads().Slice()[0].GetHash(), x.Writer[r], &hx.LoadOpts{Length: &n})
+				older, err2 := x.W.LoadHash(vs[len(vs)/2].GetHash(), x.Writer[r], &hx.LoadOpts{NoExplicit: true})
+				if err != nil || err2 != nil || part == nil || older == nil {
+					break
+				}
+				_ = part.Values() // the application looks at the partial log first
+				_ = part.ToSnapshot()
+				where := fmt.Sprintf("r%d opened from its newest %d entries, viewed, then merged with the state of the log at its entry #%d", r, n, len(vs)/2)
+				if _, err := part.Join(older, -1); err != nil {
+					break
+				}
+				o := hx.Observe(part)
+				run.Count("limited_loads_viewed_then_merged_with_an_older_state", 1)
+				wit := func() map[string]any { m := histSample(h); m["at"] = where; return m }
+				c03Values(run, h.Order, o.Set, o.Values, "Values()", where, wit)
+				c03Values(run, h.Order, o.Set, o.SnapValues, "ToSnapshot().Values", where, wit)
+				break
+			}
+		}
 		U := model.Set{}
 		for r := range x.Logs {
 			U = model.Union(U, hx.Observe(x.Logs[r]).Set)
